@@ -129,9 +129,6 @@ theorem normStep_case4 {x y : Range} (rest : List Range) (hb : x.b < y.b) (he : 
 
 /-! ### Refinement and the loop invariant -/
 
-/-- `q ⊆ p` (`p.Contains(q)`). -/
-def Inside (q p : Range) : Prop := p.b ≤ q.b ∧ q.e ≤ p.e
-
 theorem Inside.refl (p : Range) : Inside p p := ⟨Int.le_refl _, Int.le_refl _⟩
 theorem Inside.trans {a b c : Range} (h1 : Inside a b) (h2 : Inside b c) : Inside a c := by
   unfold Inside at *; omega
@@ -166,16 +163,6 @@ theorem sortedLt_applyNormCb (s : List Range) (cb : NormCb) (h : SortedLt s) :
   unfold applyNormCb
   exact sortedLt_heapPush _ _ (sortedLt_heapPush _ _ (sortedLt_heapPush _ _ (List.Pairwise.filter _ h)))
 
-/-- An `onChange(o, a, b, c)` call that splits: `o` is a current label, `a`, `b`, `c` lie inside `o`
-and cover it. (`o ∈ s` is what `assert.True(len(states) > 0)` in `mode.normalizeInputs` needs.) -/
-structure GoodCb (s : List Range) (cb : NormCb) : Prop where
-  mem : cb.o ∈ s
-  a : Inside cb.a cb.o
-  b : Inside cb.b cb.o
-  c : Inside cb.c cb.o
-  cover : ∀ k, cb.o.b ≤ k → k ≤ cb.o.e →
-    (cb.a.b ≤ k ∧ k ≤ cb.a.e) ∨ (cb.b.b ≤ k ∧ k ≤ cb.b.e) ∨ (cb.c.b ≤ k ∧ k ≤ cb.c.e)
-
 theorem refines_applyNormCb {s : List Range} {cb : NormCb} (h : GoodCb s cb) :
     Refines s (applyNormCb s cb) := by
   constructor
@@ -194,11 +181,6 @@ theorem refines_applyNormCb {s : List Range} {cb : NormCb} (h : GoodCb s cb) :
       · exact ⟨cb.b, (mem_applyNormCb ..).2 (by simp), h.b, hk⟩
       · exact ⟨cb.c, (mem_applyNormCb ..).2 (by simp), h.c, hk⟩
     · exact ⟨p, (mem_applyNormCb ..).2 (by simp [hp, hpo]), Inside.refl _, hk1, hk2⟩
-
-/-- Every callback of the list is applied to a label set that contains its `o`. -/
-def CbsOk : List Range → List NormCb → Prop
-  | _, [] => True
-  | s, cb :: cbs => GoodCb s cb ∧ CbsOk (applyNormCb s cb) cbs
 
 theorem cbsOk_append {s : List Range} {l1 l2 : List NormCb} (h1 : CbsOk s l1)
     (h2 : CbsOk (l1.foldl applyNormCb s) l2) : CbsOk s (l1 ++ l2) := by
